@@ -911,17 +911,40 @@ func (w *nilWalker) stmt(s ast.Stmt, f *facts) (*facts, bool) {
 		var outs []*facts
 		allTerm := true
 		hasDefault := false
+		// Clauses are tried in source order; the default clause (wherever it is written) runs when
+		// every case failed. A case of a tagged switch is the comparison `tag == e`; the facts of the
+		// failed comparisons carry over to the later clauses and to default, exactly as in an
+		// if / else-if chain.
+		cur := f
+		clauseFacts := map[*ast.CaseClause]*facts{}
 		for _, cc := range x.Body.List {
 			cl := cc.(*ast.CaseClause)
-			cf := f
 			if cl.List == nil {
 				hasDefault = true
+				continue
 			}
+			var cf *facts
 			for _, e := range cl.List {
-				w.expr(e, f)
-				if x.Tag == nil {
-					cf, _ = w.cond(e, f)
+				w.expr(e, cur)
+				var test ast.Expr = e
+				if x.Tag != nil {
+					test = &ast.BinaryExpr{X: x.Tag, Op: token.EQL, Y: e, OpPos: e.Pos()}
 				}
+				tf, ff := w.cond(test, cur)
+				if cf == nil {
+					cf = tf
+				} else {
+					cf = meet(cf, tf)
+				}
+				cur = ff
+			}
+			clauseFacts[cl] = cf
+		}
+		for _, cc := range x.Body.List {
+			cl := cc.(*ast.CaseClause)
+			cf := cur
+			if cl.List != nil {
+				cf = clauseFacts[cl]
 			}
 			o, t := w.block(cl.Body, cf)
 			if !t {
@@ -929,6 +952,7 @@ func (w *nilWalker) stmt(s ast.Stmt, f *facts) (*facts, bool) {
 				outs = append(outs, o)
 			}
 		}
+		f = cur
 		if !hasDefault {
 			allTerm = false
 			outs = append(outs, f)
